@@ -185,6 +185,7 @@ def gen_cal(tier, rng, quick):
             out.append(f"ymwd_ok {y} {m} {R(0, 8)} {R(6, 255)}")
             out.append(f"ymwd_to {y} {m} {R(0, 6)} {R(7, 255)}")
         for m in [0, 13, 14, 254]:
+            out.append(f"ymdl_bad {y} {m}")
             out.append(f"ymdl_ok {y} {m}")
             out.append(f"ymwd_ok {y} {m} {R(0, 6)} {R(1, 5)}")
             out.append(f"ymwdl_ok {y} {m} {R(0, 6)}")
